@@ -30,6 +30,7 @@ def answer (kv : KV) : String :=
     | "into_chunks" => some (.intoChunks n k)
     | "into_chunks_mut" => some (.intoChunksMut n k)
     | "uninit" => some (.uninitAssumeInit n)
+    | "const_transmute" => some (.transmute (kv.natD "sa" 0) (kv.natD "sb" 0) (kv.natD "aa" 1) (kv.natD "ab" 1))
     | _ => none
   match call with
   | some c => showV (eval c)
